@@ -218,7 +218,10 @@ def wiring(ctx: Ctx):
     # NaN and the others average unrelated subtotals
     sm = ctx.repo.cls(MM, "_ScaleMeanSmoothed")
     if ctx.repo.lookup(sm, "_proportions") is not None:
-        e = expand(ctx.repo, sm, "_proportions", stop=lambda mm: mm.name in ("_smoother",))
+        from ..symex import fold, fold_consts
+
+        # a comprehension over the literal block indexes is unrolled and its constant tests (`i == 0`) decided
+        e = fold_consts(fold(expand(ctx.repo, sm, "_proportions", stop=lambda mm: mm.name in ("_smoother",))))
         where = f"{MM}::_ScaleMeanSmoothed._proportions"
         if isinstance(e, (ast.List, ast.Tuple)) and len(e.elts) == 2:
             for k, (elt, smoothed, what) in enumerate(zip(e.elts, (True, False), ("base columns (the periods)", "inserted columns"))):
